@@ -48,6 +48,7 @@ func TestP256VsStdlib(t *testing.T) {
 		var got *p256.Point
 		var sx, sy *big.Int
 		desc := vlib.Desc(op, a.class)
+		nt := a.special() && op != "basemul"
 		ax, ay := xy(a.ref)
 		switch op {
 		case "add":
@@ -57,6 +58,7 @@ func TestP256VsStdlib(t *testing.T) {
 			//nolint:staticcheck // the deprecated generic API is the point of the comparison
 			sx, sy = std.Add(ax, ay, bx, by)
 			desc = vlib.Desc(op, a.class, b.class)
+			nt = nt || b.special()
 		case "double":
 			got = a.lib.Double()
 			sx, sy = std.Double(ax, ay)
@@ -65,11 +67,13 @@ func TestP256VsStdlib(t *testing.T) {
 			got = a.lib.ScalarMul(s)
 			sx, sy = std.ScalarMult(ax, ay, kr.Bytes())
 			desc = vlib.Desc(op, a.class, cl)
+			nt = nt || cl != "drawn"
 		case "basemul":
 			s, kr, cl, _ := g.drawLibScalar(t, "k")
 			got = p256.NewCurve().ScalarBaseMul(s)
 			sx, sy = std.ScalarBaseMult(kr.Bytes())
 			desc = vlib.Desc(op, cl)
+			nt = true // the generator is an exceptional operand class
 		}
 		r, err := g.toRef(got)
 		if err != nil {
@@ -78,7 +82,7 @@ func TestP256VsStdlib(t *testing.T) {
 		if !sameXY(g.ref, sx, sy, r) {
 			t.Fatalf("p256 %s on %s = %v: library %v, crypto/elliptic (%x, %x)", op, a.tag(), a.ref, r, sx, sy)
 		}
-		vlib.Case(test, desc, true, "op="+op, "a="+a.class)
+		vlib.Case(test, desc, nt, "op="+op, "a="+a.class)
 	})
 }
 
@@ -163,7 +167,7 @@ func TestX25519VsStdlib(t *testing.T) {
 		if c := pp.ScalarMul(s).ToCompressed(); !bytes.Equal(c, want) {
 			t.Fatalf("X25519 through the prime-subgroup type: %x, want %x", c, want)
 		}
-		vlib.Case(test, vlib.Desc(kcl, ucl), true, "k="+kcl, "u="+ucl)
+		vlib.Case(test, vlib.Desc(kcl, ucl), kcl != "drawn" || ucl != "pubkey", "k="+kcl, "u="+ucl)
 	})
 }
 
